@@ -1114,3 +1114,7 @@ def replay(run, data) -> None:
                      'kv1-fixed', {'engine': 'kv1-fixed', 'index': idx})
     run.case('pad', True)
     run.case('pad2', True)
+
+
+# (kept at the end of the file so that the text above stays the description the check was first built to)
+RULE += ' ' + "Later additions: binary version 0 (legacy header, format names 'sfm' / 'binary'); a graph with 33 200 table strings (versions 2-4 may refuse it); attributes built through the typed constructors and arrays filled through append / extend / __setitem__ / __delitem__."
